@@ -289,4 +289,47 @@ def main(tier, seed, scale=1.0):
             log("C08: binary %s exited with %s: %s" % (b, rc, err[-500:]))
         for c in cases:
             judge(chk, c, obs, dropped)
+    expression_context(chk)
     return chk.finish()
+
+
+def expression_context(chk):
+    """the designated expression is the USER's code: it is compiled where and how the user wrote it (its line, its lints)"""
+    from .. import harness as H
+    # everything on one source line: `line!()` inside the attributes is the line of the constant next to them
+    lin = ("pub const L: u32 = line!(); #[derive(::educe::Educe)] #[educe(Default(new))] pub struct Ty { #[educe(Default = line!())] pub a: u32, "
+           "#[educe(Default(expression = line!() + 1))] pub b: u32, pub c: u8 } "
+           "#[derive(::educe::Educe)] #[educe(Default)] pub enum En { #[educe(Default)] V(#[educe(Default(expr(line!())))] u32), W } "
+           "#[derive(::educe::Educe)] #[educe(Default(expression = Tu(line!())))] pub struct Tu(pub u32);\n")
+    drive = ("        let t = <Ty as ::core::default::Default>::default(); let n = Ty::new(); let e = match <En as ::core::default::Default>::default() { En::V(x) => x, En::W => 0 }; "
+             "let u = <Tu as ::core::default::Default>::default();\n"
+             "        %sbegin(); %sobs(\"lin\", \"line\", 0, -1, &format!(\"{} {} {} {} {} {}\", L, t.a, t.b - 1, n.a, e, u.0));" % (RT, RT))
+    c = BH.Case("lin", None, lin, [], drive=drive, info={})
+    c.module = lambda c=c: H.module(c.cid, c.text + "pub fn run() {\n    %sguarded(\"%s\", || {\n%s\n    });\n}\n" % (RT, c.cid, c.drive))
+    # an out-of-range literal is the user's mistake: rustc's deny-by-default lint has to see it
+    ovf = BH.Case("ovf", None, "#[derive(::educe::Educe)]\n#[educe(Default)]\npub struct Ty {\n    #[educe(Default = 300)]\n    pub a: u8,\n}\n", [], drive="", info={})
+    ovf.module = lambda c=ovf: H.module(c.cid, c.text + "pub fn run() {}\n")
+    ovf2 = BH.Case("ovg", None, "#[derive(::educe::Educe)]\n#[educe(Default)]\npub enum Ty {\n    #[educe(Default)]\n    V {\n        #[educe(Default(expression = 70000u16))]\n        a: u16,\n    },\n}\n", [], drive="", info={})
+    ovf2.module = lambda c=ovf2: H.module(c.cid, c.text + "pub fn run() {}\n")
+    obs, dropped, crashed, _, _ = BH.execute("c08x", [c, ovf, ovf2])
+    for neg in (ovf, ovf2):
+        chk.evaluations += 1
+        if neg.cid not in dropped:
+            chk.violation("expression-lints-suppressed", "an out-of-range literal given as a default compiles: rustc's overflowing_literals lint "
+                          "did not see the user's expression\n%s" % neg.text, {"case.rs": neg.module()})
+        else:
+            chk.held("ovf:" + neg.cid, True, 1)
+            chk.count("expression-context/lint")
+    o = obs.get("lin")
+    if "lin" in dropped or o is None or not o.recs:
+        chk.inconc("expression-context-not-run")
+        return
+    vals = o.recs[0][3][0].split()
+    chk.evaluations += 1
+    if len(set(vals)) != 1:
+        chk.violation("expression-location", "line!() inside a designated default expression is not the line of the attribute: "
+                      "constant on the same line, struct default a, b - 1, new().a, enum field, type-level expression = %s\n%s" % (vals, lin),
+                      {"case.rs": c.module()})
+    else:
+        chk.held("lin", True, 1)
+        chk.count("expression-context/line")
